@@ -46,6 +46,54 @@ Definition run (r : raw_scheme) (cs : list (mol * list (list nat) * expo)) : lis
 ''')
 
 
+SYN = [
+    {'name': 'syn_overlap_late',
+     'patterns': [('C', 'C', 'fragment a{C? labeled c1}'), ('H', 'H', 'fragment a{H? labeled h1}'), ('O', 'O', 'fragment a{O? labeled o1}'),
+                  ('Cd', 'Cd', 'fragment a{C? labeled c1 C? labeled c2 double bond to c1}')],
+     'descr': [], 'remaps': {}, 'mols': ['CC', 'CCO', 'C=C', 'CC=C', 'C', 'O', 'C=CC=C', 'CCC', 'OC=C', 'N']},
+    {'name': 'syn_overlap_early',
+     'patterns': [('Cd', 'Cd', 'fragment a{C? labeled c1 C? labeled c2 double bond to c1}'), ('C', 'C', 'fragment a{C? labeled c1}'),
+                  ('H', 'none', 'fragment a{H? labeled h1}'), ('O', 'O', 'fragment a{O? labeled o1}')],
+     'descr': [('pairs', 'fragment a{C? labeled c1 C? labeled c2 single bond to c1}')], 'remaps': {}, 'mols': ['CC', 'C=C', 'CCC', 'CCO', 'C1CC1']},
+    {'name': 'syn_remaps',
+     'patterns': [('C', 'C', 'fragment a{C labeled c1}'), ('H', 'none', 'fragment a{H labeled h1}'), ('O', 'O', 'fragment a{O labeled o1}'),
+                  ('Crad', 'C', 'fragment a{C. labeled c1}')],
+     'descr': [('CCbond', 'fragment a{C labeled c1 C labeled c2 single bond to c1}'), ('C(C)', 'fragment a{O labeled o1}'),
+               ('tri', 'fragment a{C labeled c1 C labeled c2 single bond to c1 C labeled c3 single bond to c2}')],
+     'remaps': {'C(C)': [[0.5, 'X'], [2, 'Y']], 'CCbond': [[1, 'Y']], 'O(C)': [[3, 'C(C)2']], 'tri': [[0.25, 'C(C)2'], [1, 'tri2']]},
+     'mols': ['CC', 'CCC', 'CCCC', 'CCO', 'C[CH2]', 'CC(C)C', 'C1CC1', 'COC', 'C', 'CO', 'C=C']},
+]
+
+
+def write_syn(sch, root):
+    import os
+    os.makedirs(root, exist_ok=True)
+    L = ['patterns:']
+    for c, pe, t in sch['patterns']:
+        L.append("-   center_name: '%s'\n    periph_name: '%s'\n    connectivity: '%s'" % (c, pe, t))
+    if sch['descr']:
+        L.append('other_descriptors:')
+        for n, t in sch['descr']:
+            L.append("-   name: '%s'\n    connectivity: '%s'" % (n, t))
+    if sch['remaps']:
+        L.append('remaps:')
+        for k, v in sch['remaps'].items():
+            L.append("    '%s': %s" % (k, '[' + ','.join("[%r,'%s']" % (c, t) for c, t in v) + ']'))
+    path = os.path.join(root, 'scheme.yaml')
+    with open(path, 'w') as f:
+        f.write('\n'.join(L) + '\n')
+    return path
+
+
+def syn_raw_lit(sch):
+    from fractions import Fraction
+    pats = g_list(['(%s, %s, %s)' % (g_str(c), g_str(pe), g_str(t)) for c, pe, t in sch['patterns']])
+    descr = g_list(['(%s, %s)' % (g_str(n), g_str(t)) for n, t in sch['descr']])
+    rem = g_list(['(%s, %s)' % (g_str(k), g_list(['((%d # %d)%%Q, %s)' % (Fraction(repr(c)).numerator, Fraction(repr(c)).denominator, g_str(t)) for c, t in v]))
+                  for k, v in sch['remaps'].items()])
+    return '((%s : list (list N * list N * list N)), (%s : list (list N * list N)), (%s : list (list N * list (Q * list N))))' % (pats, descr, rem)
+
+
 def expo_lit(r):
     if 'd' in r:
         return '(EDict %s)' % g_list(['(%s, %s)' % (g_str(k), vlib.g_Qf(v)) for k, v in r['d']])
@@ -57,7 +105,8 @@ def expo_lit(r):
 def decompose_jobs(ctx, n_per_lib, graph=True, as_mol=False):
     jobs = []
     for lib in gen.SHIPPED:
-        pool = molgen.pool_for_lib(ctx.rng, lib, n_per_lib, with_bad=0.12)
+        from props import c03, c04
+        pool = list(dict.fromkeys(c03.EXTRA.get(lib, [])[:10] + c04.STRESS.get(lib, [])[:10] + molgen.pool_for_lib(ctx.rng, lib, n_per_lib, with_bad=0.12)))
         step = 8
         for s in range(0, len(pool), step):
             jobs.append({'lib': lib, 'smiles': pool[s:s + step], 'graph': graph, 'as_mol': as_mol, 'timeout': 300})
@@ -72,6 +121,12 @@ def run(ctx):
         'RDKit calls; RDKit itself (SMILES parsing, kekulisation, ring perception) is an external',
         'dictionaries compared by key, counts at 1e-9 (fractional remap coefficients accumulate in floating point)']
     jobs = decompose_jobs(ctx, ctx.n(32, 500))
+    import os
+    syn_of = {}
+    for sch in SYN:
+        path = write_syn(sch, os.path.join(vlib.WORK, 'c02_' + sch['name']))
+        syn_of[path] = sch
+        jobs.append({'lib': path, 'smiles': sch['mols'], 'graph': True, 'as_mol': False, 'timeout': 300})
     res = vlib.run_impl_sharded('scheme', jobs, timeout=3000)
     rows = {}
     hist = {'decomposed': 0, 'pattern_error': 0, 'other_error': 0}
@@ -108,7 +163,11 @@ def run(ctx):
             R = rs[s:s + step]
             body = ';\n'.join('(%s, %s, %s)' % (ringcorr.graph_lit(g), g_list([g_list(['%d%%nat' % a for a in ring]) for ring in g['sssr']]), expo_lit(im))
                               for _, g, im in R)
-            shards.append(HEADER + 'Definition cases : list (mol * list (list nat) * expo) := [\n%s\n].\nEval vm_compute in run raw_%s cases.\n' % (body, lib))
+            if lib in syn_of:
+                shards.append(HEADER + 'Definition raw_syn : raw_scheme := %s.\nDefinition cases : list (mol * list (list nat) * expo) := [\n%s\n].\n'
+                              'Eval vm_compute in run raw_syn cases.\n' % (syn_raw_lit(syn_of[lib]), body))
+            else:
+                shards.append(HEADER + 'Definition cases : list (mol * list (list nat) * expo) := [\n%s\n].\nEval vm_compute in run raw_%s cases.\n' % (body, lib))
             meta.append((lib, R))
     nbad = 0
     for k, idx in ringcorr.run_shards(ctx, 'c02_' + ctx.tier, shards, timeout=3000):
@@ -124,7 +183,7 @@ def run(ctx):
     ctx.coverage.update({
         'rule': 'molecules composed from templates per scheme vocabulary (gas: chains, branches, rings 3-7, alkenes incl. cis/trans, alkynes, carbonyls, ethers, '
                 'acids, aromatics incl. fused, radicals, N; surface: Pt/Ru adsorbates with 1-3 surface bonds) plus out-of-vocabulary molecules, for each '
-                'of the nine shipped schemes. distinct by (scheme, canonical SMILES); non-trivial = decomposed into >=2 descriptors',
+                'of the nine shipped schemes; plus three synthetic schemes (centre patterns overlapping late / early, unmatched atoms, chained and fractional remaps, a descriptor named like a group). distinct by (scheme, canonical SMILES); non-trivial = decomposed into >=2 descriptors',
         'histogram': dict(hist, descriptors_seen={k: len(v) for k, v in fired.items()}),
         'correspondence_cases': sum(len(v) for v in rows.values()), 'correspondence_mismatches': nbad})
 
